@@ -306,10 +306,7 @@ impl Engine {
             Atom::Lt(x, y) => v(x) < v(y),
             Atom::EqC(x, c) => v(x) == c,
             Atom::LtC(x, c) => v(x) < c,
-            Atom::B(b) => *self
-                .bvalues
-                .get(b as usize)
-                .unwrap_or_else(|| std::panic::panic_any(EngineError(format!("no value for bool const {}", b)))),
+            Atom::B(b) => self.bvalues.get(b as usize).copied().unwrap_or(false),
         }
     }
 
@@ -496,6 +493,18 @@ pub fn assume(f: &F) {
     })
 }
 
+/// Adds an assumption that is known to keep the path condition satisfiable
+/// (e.g. the latch `b_k => b_{k+1}` over a fresh constant): no feasibility query.
+pub fn assume_nocheck(f: &F) {
+    with(|e| {
+        if e.mode != Mode::Symbolic {
+            return;
+        }
+        let a = e.f_ast(f);
+        e.z3.as_mut().unwrap().assert(a);
+    })
+}
+
 /// `PC ⊨ f` ?  (one solver query, no fork)
 pub fn entails(f: &F) -> bool {
     with(|e| {
@@ -656,6 +665,8 @@ impl Shared {
 
 #[derive(Clone, Debug)]
 pub struct FoundViolation {
+    /// call site this violation was attributed to by the property's triage (known-finding candidates)
+    pub site: Option<String>,
     pub shape: usize,
     pub msg: String,
     pub ints: Vec<i64>,
@@ -712,10 +723,13 @@ fn classify(r: Result<String, Box<dyn std::any::Any + Send>>) -> Leaf {
 }
 
 /// Explore every path of `run(shape_index)` for every shape, on `threads` workers.
+pub type Triage<'a> = &'a (dyn Fn(usize, &[i64], &[bool], &str) -> Option<String> + Sync);
+
 pub fn explore<R>(
     next_shape: &(dyn Fn() -> Option<usize> + Sync),
     ext_stop: &AtomicBool,
     run: R,
+    triage: Triage,
     opts: &ExploreOpts,
 ) -> ExploreResult
 where
@@ -899,6 +913,7 @@ where
                                         };
                                         let (ints, bools) = model.unwrap_or_default();
                                         FoundViolation {
+                                            site: None,
                                             shape,
                                             msg,
                                             ints,
@@ -911,9 +926,25 @@ where
                                             notes: e.run_notes.clone(),
                                         }
                                     });
+                                    let mut fv = fv;
+                                    fv.site = triage(shape, &fv.ints, &fv.bools, &fv.msg);
                                     let mut v = violations.lock().unwrap();
-                                    v.push(fv);
-                                    if v.len() >= opts.max_violations {
+                                    if let Some(site) = &fv.site {
+                                        // attributed to a call site: counted, a few examples kept,
+                                        // does not stop the exploration
+                                        let key = format!("attributed:{}", site);
+                                        let n = with(|e| {
+                                            let c = e.stats.witness.entry(key).or_insert(0);
+                                            *c += 1;
+                                            *c
+                                        });
+                                        if n <= 2 {
+                                            v.push(fv);
+                                        }
+                                    } else {
+                                        v.push(fv);
+                                    }
+                                    if v.iter().filter(|x| x.site.is_none()).count() >= opts.max_violations {
                                         shared.stop.store(true, Ordering::SeqCst);
                                         ext_stop.store(true, Ordering::SeqCst);
                                     }
@@ -1033,7 +1064,7 @@ fn stats_from(v: &serde_json::Value) -> Stats {
 }
 
 /// Multi-process exploration of shapes `0..n_shapes` (in index order).
-pub fn explore_mp<R>(n_shapes: usize, run: R, opts: ExploreOpts, procs: usize, work_dir: &std::path::Path) -> ExploreResult
+pub fn explore_mp<R>(n_shapes: usize, run: R, triage: Triage, opts: ExploreOpts, procs: usize, work_dir: &std::path::Path) -> ExploreResult
 where
     R: Fn(usize) -> String + Sync,
 {
@@ -1064,11 +1095,11 @@ where
         }
         if pid == 0 {
             // child
-            let r = explore(&next, &ctl.stop, &run, &opts);
+            let r = explore(&next, &ctl.stop, &run, triage, &opts);
             let doc = serde_json::json!({
                 "stats": stats_json(&r.stats),
                 "violations": r.violations.iter().map(|v| serde_json::json!({
-                    "shape": v.shape, "msg": v.msg, "ints": v.ints, "bools": v.bools,
+                    "shape": v.shape, "msg": v.msg, "ints": v.ints, "bools": v.bools, "site": v.site,
                     "pc": v.path_condition,
                     "notes": v.notes.iter().map(|(k, x)| serde_json::json!([k, x])).collect::<Vec<_>>(),
                 })).collect::<Vec<_>>(),
@@ -1103,6 +1134,7 @@ where
         res.stats.merge(&stats_from(&v["stats"]));
         for x in v["violations"].as_array().unwrap() {
             res.violations.push(FoundViolation {
+                site: x["site"].as_str().map(|s| s.to_string()),
                 shape: x["shape"].as_u64().unwrap() as usize,
                 msg: x["msg"].as_str().unwrap().to_string(),
                 ints: x["ints"].as_array().unwrap().iter().map(|i| i.as_i64().unwrap()).collect(),
